@@ -80,12 +80,165 @@ def logged_warning_about(cx, line):
 
 
 lo = contract("cisco_acl.ace_group.AceGroup._line_to_oace", dict(self=TObj("AceGroup"), line=TStr, warning=TBool), TOpt(TObj("AceBase")),
-              props=("C12",))
+              props=("C12",), modifies=["Log.warned"])
 lo.may_raise("NetmaskValueError", None)       # re-raised: the whole construction fails
 lo.may_raise("TypeError", None)
 lo.ensure("accounted", lambda cx, result, self, line, warning: z3.Implies(
     z3.And(S.is_none(result), S._t(line) != "", S._t(warning)),
     z3.Or(logged_warning_about(cx, line), *[z3.PrefixOf(z3.StringVal(p), S._t(line)) for p in SKIPS])))
+# the same over the ghost log (usable at call sites, where the records of this call are not visible): the texts warned about only grow,
+# and a dropped line is among them unless it carries a documented prefix
+lo.ensure("accounted (ghost log)", lambda cx, result, self, line, warning: z3.Implies(
+    z3.And(S.is_none(result), S._t(line) != "", S._t(warning)),
+    z3.Or(S.warned(cx, line), *[z3.PrefixOf(z3.StringVal(p), S._t(line)) for p in SKIPS])))
+lo.ensure("log grows", lambda cx, result, self, line, warning: z3.ForAll([z3.String("s!lg")], z3.Implies(
+    S.warned(cx.old, z3.String("s!lg")), S.warned(cx, z3.String("s!lg")))))
 lo.ensure("kept", lambda cx, result, self, line, warning: z3.Implies(z3.Not(S.is_none(result)), z3.And(
     IS(S._t(line)), OBJLINE(S._t(S.val(result))) == S._t(line))))
 lo.ensure("silent only when asked", lambda cx, result, self, line, warning: z3.Implies(z3.Not(S._t(warning)), z3.BoolVal(len(cx.logged()) == 0)))
+
+
+# ---------------------------------------------------------------- Acl.line.fset: the accounting identity for a whole ACL text (C12)
+from pyvc.values import TTuple, SList  # noqa: E402
+from pyvc.contract import schema  # noqa: E402
+
+LINES_LEN = z3.Function("body_lines_len", z3.StringSort(), z3.IntSort())
+LINES_ARR = z3.Function("body_lines", z3.StringSort(), z3.ArraySort(z3.IntSort(), z3.StringSort()))
+
+
+def lines_of(text):
+    """ghost: the non-empty lines of a text, blanks normalised (what helpers.lines_wo_spaces returns)"""
+    return SList(TStr, LINES_LEN(S._t(text)), LINES_ARR(S._t(text)))
+
+
+lws = contract("cisco_acl.helpers.lines_wo_spaces", dict(line=TStr), TList(TStr), verify=False, props=("C12",),
+               note="splits at newlines, normalises blanks, drops empty lines (str.split / join: bounded only); named by the ghost list body_lines(text)")
+lws.ensure("ghost", lambda cx, result, line: z3.And(result.n == LINES_LEN(S._t(line)), result.n >= 0,
+                                                   S.forall(0, result.n, lambda i: z3.And(result.a[i] == LINES_ARR(S._t(line))[i], result.a[i] != ""))))
+
+ptn = contract("cisco_acl.acl.Acl._parse_type_name", dict(self=TObj("Acl"), line=TStr), TTuple(TStr, TStr), verify=False, props=("C12",),
+               note="reads type and name from the header line (regex), or raises ValueError")
+ptn.may_raise("ValueError", None)
+
+ais = contract("cisco_acl.acl.Acl.items.fset", dict(self=TObj("Acl"), items=TList(TObj("AceBase"))), None, verify=False, props=("C12",),
+               modifies=["AceGroup._items"],
+               note="for a list of Ace / Remark objects and an ACL that is not grouped by remarks: stores exactly these objects in this order (object-graph code: bounded in C16/C17)")
+ais.require("not grouped", lambda cx, self, items: S._t(cx.get(self, "_group_by")) == "")
+ais.ensure("stored", lambda cx, result, self, items: z3.And(
+    cx.get(self, "_items").n == items.n, S.forall(0, items.n, lambda j: cx.get(self, "_items").a[j] == items.a[j])))
+
+lta.ensure("class", lambda cx, result, self, line: z3.Or(cx.isinstance(result, "Ace"), cx.isinstance(result, "Remark")))
+lo.ensure("class", lambda cx, result, self, line, warning: z3.Implies(z3.Not(S.is_none(result)), z3.Or(
+    cx.isinstance(S.val(result), "Ace"), cx.isinstance(S.val(result), "Remark"))))
+
+
+def ignorable(s):
+    return z3.Or(*[z3.PrefixOf(z3.StringVal(p), s) for p in SKIPS])
+
+
+def _represented(objs, n, s):
+    j = z3.Int("rep!j")
+    return z3.Exists([j], z3.And(0 <= j, j < n, OBJLINE(objs.a[j]) == s))
+
+
+def _accounted(cx, objs, lines, lo_, hi_):
+    """every line of lines[lo_:hi_] is represented by an object, or carries a documented prefix, or was warned about"""
+    return S.forall(lo_, hi_, lambda i: z3.Or(_represented(objs, objs.n, lines.a[i]), ignorable(lines.a[i]), S.warned(cx, lines.a[i])))
+
+
+SEENL = z3.Function("body_line_before", z3.StringSort(), z3.StringSort(), z3.IntSort(), z3.BoolSort())   # (text, s, k): s is one of the first k body lines of text
+
+
+def _seen_def(cx, self, line):
+    """contract-local ghost definition: SEENL(text, s, k) <=> s == body line i of text for some i < k (body lines: all lines but the header)"""
+    s_, k_, i_ = z3.String("sd!s"), z3.Int("sd!k"), z3.Int("sd!i")
+    t = S._t(line)
+    return z3.ForAll([s_, k_], SEENL(t, s_, k_) == z3.Exists([i_], z3.And(0 <= i_, i_ < k_, i_ + 1 < LINES_LEN(t), LINES_ARR(t)[i_ + 1] == s_)))
+
+
+def _only_lines(text, objs, k):
+    """every object stands for one of the first k body lines, and that line has the shape of an ACL line"""
+    return S.forall(0, objs.n, lambda j: z3.And(SEENL(S._t(text), OBJLINE(objs.a[j]), k), IS(OBJLINE(objs.a[j]))))
+
+
+al = contract("cisco_acl.acl.Acl.line.fset", dict(self=TObj("Acl"), line=TStr), None, props=("C12",),
+              modifies=["AceBase._type", "AceGroup._name", "AceGroup._items", "Log.warned"],
+              ghost={"loop_var_types": {"aces": TList(TObj("AceBase")), "items": TList(TStr)}})
+al.require("not grouped", lambda cx, self, line: S._t(cx.get(self, "_group_by")) == "")
+al.may_raise("ValueError", None)
+al.may_raise("NetmaskValueError", None)
+al.may_raise("TypeError", None)
+def _post_hints(cx, result, v, self, line):
+    """the stored list is the list built by the loop; body line i is items[i - 1]"""
+    objs, L = cx.get(self, "_items"), lines_of(line)
+    try:
+        aces = v.aces
+        v.items.n
+    except AttributeError:
+        return []          # the early return: no body line was read
+    if not hasattr(aces, "n"):
+        return []
+    return [z3.And(objs.n == aces.n, S.forall(0, aces.n, lambda j: objs.a[j] == aces.a[j])),
+            S.forall(0, v.items.n, lambda i: z3.Implies(_represented(aces, aces.n, v.items.a[i]), _represented(objs, objs.n, v.items.a[i]))),
+            S.forall(0, v.items.n, lambda i: z3.Or(_represented(objs, objs.n, v.items.a[i]), ignorable(v.items.a[i]), S.warned(cx, v.items.a[i]))),
+            z3.And(v.items.n == L.n - 1, S.forall(0, v.items.n, lambda i: L.a[i + 1] == v.items.a[i]))]
+
+
+def body_of(text):
+    """the body lines of an ACL text: all lines but the header"""
+    L = lines_of(text)
+    j = z3.Int("bd!j")
+    return SList(TStr, z3.If(L.n > 0, L.n - 1, 0), z3.Lambda([j], L.a[j + 1]))
+
+
+al.ensure("accounted", lambda cx, result, self, line: z3.Implies(
+    lines_of(line).n > 0, _accounted(cx, cx.get(self, "_items"), body_of(line), 0, body_of(line).n)), hints=[_post_hints])
+al.ghost["defs"] = [_seen_def]
+al.ensure("only lines", lambda cx, result, self, line: z3.Implies(
+    lines_of(line).n > 0, _only_lines(line, cx.get(self, "_items"), lines_of(line).n - 1)))
+al.ensure("no more items than lines", lambda cx, result, self, line: z3.Implies(
+    lines_of(line).n > 0, cx.get(self, "_items").n <= lines_of(line).n - 1))
+def _h_rep_kept(cx, k, v):
+    """a line represented before this iteration still is (the list of objects only grows at its end)"""
+    old, new = v.head.aces, v.aces
+    c = z3.Int("hk!c")
+    return [z3.And(new.n >= old.n, z3.ForAll([c], z3.Implies(z3.And(0 <= c, c < old.n), new.a[c] == old.a[c]))),
+            S.forall(0, k, lambda i: z3.Implies(_represented(old, old.n, v.items.a[i]), _represented(new, new.n, v.items.a[i])))]
+
+
+def _h_warn_kept(cx, k, v):
+    s_ = z3.String("hw!s")
+    return z3.ForAll([s_], z3.Implies(S.warned(v.head_cx, s_), S.warned(cx, s_)))
+
+
+def _h_current(cx, k, v):
+    """the line of this iteration: represented by the new last object, or carrying a documented prefix, or warned about"""
+    q = z3.Int("hc!q")
+    return z3.ForAll([q], z3.Implies(q == k, z3.Or(_represented(v.aces, v.aces.n, v.items.a[q]), ignorable(v.items.a[q]), S.warned(cx, v.items.a[q]))))
+
+
+def _h_seen(cx, k, v):
+    """the ghost predicate grows with k; the line of this iteration is seen from now on"""
+    s_ = z3.String("hs!s")
+    t = S._t(cx.entry("line"))
+    return [z3.ForAll([s_], z3.Implies(SEENL(t, s_, k), SEENL(t, s_, k + 1))),
+            z3.Implies(k + 1 < LINES_LEN(t), SEENL(t, LINES_ARR(t)[k + 1], k + 1))]
+
+
+def _h_new_last(cx, k, v):
+    old, new = v.head.aces, v.aces
+    return z3.Implies(new.n > old.n, z3.And(new.n == old.n + 1, OBJLINE(new.a[old.n]) == v.items.a[k], IS(v.items.a[k])))
+
+
+for _h, _c in ((_h_rep_kept, (2,)), (_h_warn_kept, (2,)), (_h_current, (2,)), (_h_seen, (3,)), (_h_new_last, (3,))):
+    _h.for_clauses = _c
+
+
+al.loop(0, lambda cx, k, v: z3.And(
+    v.aces.n >= 0, v.aces.n <= k,
+    _accounted(cx, v.aces, v.items, 0, k),
+    _only_lines(cx.entry("line"), v.aces, k),
+    # the loop runs over the body lines: items[i] is line i + 1 of the text
+    v.items.n == lines_of(cx.entry("line")).n - 1,
+    S.forall(0, v.items.n, lambda i: v.items.a[i] == lines_of(cx.entry("line")).a[i + 1])), modifies=["Log.warned"],
+    hints=[_h_rep_kept, _h_warn_kept, _h_current, _h_seen, _h_new_last])
